@@ -154,7 +154,7 @@ def run_zv(jobtuple):
     return {"label": label, "name": name, "rc": rc, "summary": summary, "tail": out[-2000:] if summary is None else ""}
 
 
-VIOL_RE = re.compile(r'^<<"MONITOR-VIOLATION", "(C\d+)", (<<.*>>), (\d+)>>$')
+VIOL_RE = re.compile(r'^"?MONITOR-VIOLATION (C\d+) @(\d+) (.*?)"?$')
 
 
 def validate_obs(name):
@@ -176,7 +176,7 @@ def validate_obs(name):
     for line in out.splitlines():
         m = VIOL_RE.match(line.strip())
         if m:
-            viol.append({"prop": m.group(1), "sig": m.group(2), "line": int(m.group(3))})
+            viol.append({"prop": m.group(1), "sig": m.group(3), "line": int(m.group(2))})
     consumed = ("TRACE-LINES" in out) and ("TRACE-NOT-CONSUMED" not in out)
     ok = consumed and (rc == 0 or viol)
     return {"name": name, "lines": len(evs), "viol": viol, "ok": bool(ok), "starts": starts, "evs": evs,
